@@ -226,6 +226,7 @@ const streqAxioms = `(declare-fun streq (Str Str) Bool)
 
 const strcatAxioms = `(declare-fun strcat (Str Str) Str)
 (assert (forall ((a Str) (b Str)) (! (and (= (s.len (strcat a b)) (+ (s.len a) (s.len b))) (= (s.off (strcat a b)) 0)) :pattern ((strcat a b)))))
+(assert (forall ((a Str) (b Str) (i Int)) (! (and (=> (and (<= 0 i) (< i (s.len a))) (= (s.at (strcat a b) i) (s.at a i))) (=> (and (<= (s.len a) i) (< i (+ (s.len a) (s.len b)))) (= (s.at (strcat a b) i) (s.at b (- i (s.len a)))))) :pattern ((s.ix (strcat a b) i)))))
 `
 
 // Prelude renders sort/function declarations. Only datatypes (cheap) are always
